@@ -93,7 +93,8 @@ def canonical(base: bytes, out: bytes):
     canon["uprp_old"] = [vo.cuwp(i + 1) for i in sorted(old_cw)]
     canon["uprp_new"] = sorted(json.dumps(vo.cuwp(i + 1)) for i, c in enumerate(vo.cuwps or [])
                                if any(c.values()) and i not in old_cw)
-    old_sw = {i for i, s_ in enumerate(vb.swnm or []) if s_}
+    # a switch whose SWNM entry refers to the empty text has no name: the library (and the editor) treat it as free
+    old_sw = {i for i, s_ in enumerate(vb.swnm or []) if s_ and vb.text(s_)}
     canon["swnm_old"] = [vo.switch(i)[1] for i in sorted(old_sw)]
     canon["swnm_new"] = sorted(json.dumps(vo.switch(i)[1]) for i, s_ in enumerate(vo.swnm or []) if s_ and i not in old_sw)
     trig = json.loads(json.dumps(vo.triggers(), default=str))
